@@ -97,6 +97,12 @@ def run_version(args):
                                                                     for _ in range(max(0, n - 8))]
         prev = None
         for i in range(n):
+            if i and i % 7 == 0:
+                # the node's own address changes (load_network_info replaces state.node_info): later unicasts are addressed to the new one
+                import zigpy.state
+                own = rng.choice((0x0000, 0x2B7C, 0xFFF7, rng.randrange(1, 0xFFF8)))
+                old = app.state.node_info
+                app.state.node_info = zigpy.state.NodeInfo(nwk=zt.NWK(own), ieee=old.ieee, logical_type=old.logical_type)
             ty = types[i % len(types)]
             ln = rng.choice((0, 1, 2, 5, 20, 60, 100))
             b16 = lambda: rng.choice((0, 1, 0xFFFF, 0xFFFE, 0x8000, own, rng.randrange(65536), rng.randrange(65536)))   # noqa: boundary values of every field
